@@ -221,11 +221,21 @@ func c19Build(seed int64, a *c19Arena) *c19Corpus {
 		c.strs = append(c.strs, a.str(s))
 	}
 	for i := 0; i < 200; i++ {
-		s := c.strs[r.Intn(len(c.strs))]
-		c.plainB = append(c.plainB, a.bytes([]byte(s)))
-		c.plainS = append(c.plainS, a.str(s))
 		si := r.Intn(len(c.strs))
 		src := c.strs[si]
+		// plain string i is related to encoding i: a byte prefix of its source, the source itself, an
+		// extension, or (one in four) unrelated
+		s := src
+		switch r.Intn(4) {
+		case 0:
+			s = src[:r.Intn(len(src)+1)]
+		case 1:
+			s = src + string(gen.ZooBytes(r, 1+r.Intn(3)))
+		case 2:
+			s = c.strs[r.Intn(len(c.strs))]
+		}
+		c.plainB = append(c.plainB, a.bytes([]byte(s)))
+		c.plainS = append(c.plainS, a.str(s))
 		n := 8 * len(src)
 		from := r.Intn(n + 1)
 		to := from + r.Intn(n-from+1)
@@ -332,43 +342,84 @@ func (c *c19Corpus) String() string {
 }
 
 // ---- alternate memory contexts for the same logical argument -----------------------------------
+//
+// Each helper copies an argument into a larger, poisoned allocation (other capacity, alignment and
+// neighbouring bytes) and registers a guard that verifies afterwards that nothing outside the
+// argument's len was written.
 
-func altWords(w []uint64) []uint64 {
-	big := make([]uint64, len(w)+5)
-	for i := range big {
-		big[i] = 0xdeadbeefdeadbeef
+type c19Guards struct{ fs []func() bool }
+
+func (g *c19Guards) ok() bool {
+	for _, f := range g.fs {
+		if !f() {
+			return false
+		}
 	}
-	copy(big[2:], w)
-	return big[2 : 2+len(w) : len(w)+4]
+	return true
 }
 
-func altI32(w []int32) []int32 {
+const c19PoisonW = 0xdeadbeefdeadbeef
+
+func (g *c19Guards) words(w []uint64) []uint64 {
+	big := make([]uint64, len(w)+5)
+	for i := range big {
+		big[i] = c19PoisonW
+	}
+	copy(big[2:], w)
+	n := len(w)
+	g.fs = append(g.fs, func() bool {
+		return big[0] == c19PoisonW && big[1] == c19PoisonW && big[2+n] == c19PoisonW && big[3+n] == c19PoisonW && big[4+n] == c19PoisonW
+	})
+	return big[2 : 2+n : n+4]
+}
+
+func (g *c19Guards) i32(w []int32) []int32 {
 	big := make([]int32, len(w)+7)
 	for i := range big {
 		big[i] = 0x5a5a5a5a
 	}
 	copy(big[3:], w)
-	return big[3 : 3+len(w) : len(w)+5]
+	n := len(w)
+	g.fs = append(g.fs, func() bool {
+		for i, x := range big {
+			if (i < 3 || i >= 3+n) && x != 0x5a5a5a5a {
+				return false
+			}
+		}
+		return true
+	})
+	return big[3 : 3+n : n+5]
 }
 
-func altBytes(b []byte) []byte {
-	big := make([]byte, len(b)+9)
+func (g *c19Guards) bytes(b []byte) []byte {
+	big := make([]byte, len(b)+17)
 	for i := range big {
 		big[i] = 0xa5
 	}
 	copy(big[5:], b)
-	return big[5 : 5+len(b) : len(b)+8]
+	n := len(b)
+	g.fs = append(g.fs, func() bool {
+		for i, x := range big {
+			if (i < 5 || i >= 5+n) && x != 0xa5 {
+				return false
+			}
+		}
+		return true
+	})
+	return big[5 : 5+n : n+16]
 }
 
-func altStr(s string) string {
+func (g *c19Guards) str(s string) string {
 	big := "\xaa\xaa\xaa" + s + "\x55\x55\x55\x55\x55"
+	h := gen.HashStr(big)
+	g.fs = append(g.fs, func() bool { return gen.HashStr(big) == h })
 	return big[3 : 3+len(s)]
 }
 
-func altStrs(l []string) []string {
+func (g *c19Guards) strs(l []string) []string {
 	out := make([]string, len(l), len(l)+3)
 	for i, s := range l {
-		out[i] = altStr(s)
+		out[i] = g.str(s)
 	}
 	return out
 }
